@@ -165,7 +165,7 @@ def cmd_check(sid, tier, props):
             nv = sum(1 for l in r.stdout.splitlines() if l.startswith("VIOLATION"))
             first = next((l for l in r.stdout.splitlines() if l.startswith("# violation")), "")[:300]
             verdict = "CAUGHT" if r.returncode == 1 and nv > 0 else ("INCONCLUSIVE" if r.returncode == 2 else "MISSED")
-            rec = {"check": prop, "tier": tier, "verdict": verdict, "violation_lines": nv, "first_report": first, "wall_s": round(time.time() - t0)}
+            rec = {"check": prop, "tier": tier, "seed": int(os.environ.get("VERIF_SEED", "1")), "verdict": verdict, "violation_lines": nv, "first_report": first, "wall_s": round(time.time() - t0)}
             if verdict != "CAUGHT":
                 rec["tail"] = r.stdout[-300:]
             out.append(rec)
@@ -173,7 +173,7 @@ def cmd_check(sid, tier, props):
     finally:
         m = load(sid)  # re-read: a concurrent `verify` may have written meanwhile
         m.setdefault("checks", [])
-        m["checks"] = [c for c in m["checks"] if not any(c["check"] == o["check"] and c["tier"] == o["tier"] for o in out)] + out
+        m["checks"] = [c for c in m["checks"] if not any(c["check"] == o["check"] and c["tier"] == o["tier"] and c.get("seed", 1) == o["seed"] for o in out)] + out
         save(sid, m)
         shutil.rmtree(scratch, ignore_errors=True)
 
